@@ -8,6 +8,7 @@ import (
 	"context"
 	"errors"
 	"fmt"
+	"regexp"
 	"runtime"
 	"runtime/pprof"
 	"strings"
@@ -127,6 +128,7 @@ type caseRun struct {
 
 	returned     chan struct{}
 	retFlag      int32
+	nodeIDCalls  int32 // every owner goroutine asks MetaClient.NodeID before anything else
 	err          error
 	startAt      time.Time
 	lastDoneAt   time.Time
@@ -351,7 +353,10 @@ func (s storeDouble) CreateShard(database, retentionPolicy string, shard uint64,
 
 type metaDouble struct{ c *caseRun }
 
-func (m metaDouble) NodeID() uint64 { return m.c.coordNodeID() }
+func (m metaDouble) NodeID() uint64 {
+	atomic.AddInt32(&m.c.nodeIDCalls, 1)
+	return m.c.coordNodeID()
+}
 
 func (m metaDouble) Database(name string) *meta.DatabaseInfo {
 	return &meta.DatabaseInfo{Name: name, DefaultRetentionPolicy: rpName}
@@ -408,63 +413,112 @@ const (
 )
 
 // await waits for ch. It never decides by the clock: when ch stays open it
-// inspects the goroutine profile (goroutines of a case carry its pprof label)
-// and reports awGone only when no owner goroutine of this case is running
-// outside a gate, i.e. the expected call can no longer happen.
+// asks for a goroutine profile (goroutines of a case carry its pprof label)
+// and reports awGone only when (1) every owner goroutine of the case had
+// already started (each calls MetaClient.NodeID first) or the write had
+// returned, and (2) a profile taken after that shows no owner goroutine of
+// this case outside a gate, and (3) ch is still open afterwards: then the
+// expected call can no longer happen.
 func (c *caseRun) await(ch chan struct{}) awaitResult {
 	select {
 	case <-ch:
 		return awOK
 	default:
 	}
-	t := time.NewTimer(100 * time.Millisecond)
+	wait := 20 * time.Millisecond
+	t := time.NewTimer(wait)
 	defer t.Stop()
-	for tries := 0; ; tries++ {
+	begin := time.Now()
+	for {
 		select {
 		case <-ch:
 			return awOK
 		case <-t.C:
 		}
-		if inflight(c.label) == 0 {
-			select {
-			case <-ch:
-				return awOK
-			default:
-				return awGone
+		if atomic.LoadInt32(&c.nodeIDCalls) >= int32(c.spec.N) || atomic.LoadInt32(&c.retFlag) == 1 {
+			if inflightOf(c.label) == 0 {
+				select {
+				case <-ch:
+					return awOK
+				default:
+					return awGone
+				}
 			}
 		}
-		if tries > 300 {
+		if time.Since(begin) > 60*time.Second {
 			return awStuck
 		}
-		t.Reset(100 * time.Millisecond)
+		if wait < 320*time.Millisecond {
+			wait *= 2
+		}
+		t.Reset(wait)
 	}
 }
 
-var profMu sync.Mutex
-var profileDumps int64
+// One profile serves every waiter that asked before it was taken.
+type profReq struct {
+	label string
+	resp  chan int
+}
 
-// inflight counts owner goroutines (closures of writeToShardWithContext) that
-// are not parked in a gate; label "" = of any case.
-func inflight(label string) int {
-	profMu.Lock()
-	defer profMu.Unlock()
+var (
+	profReqs     = make(chan profReq, 8192)
+	profOnce     sync.Once
+	profileDumps int64
+	reLabel      = regexp.MustCompile(`"c03":"(\d+)"`)
+)
+
+func profiler() {
+	for req := range profReqs {
+		batch := []profReq{req}
+	drain:
+		for {
+			select {
+			case q := <-profReqs:
+				batch = append(batch, q)
+			default:
+				break drain
+			}
+		}
+		m, total := dumpInflight()
+		for _, q := range batch {
+			if q.label == "" {
+				q.resp <- total
+			} else {
+				q.resp <- m[q.label]
+			}
+		}
+		time.Sleep(5 * time.Millisecond) // pacing only: lets requests accumulate
+	}
+}
+
+// inflightOf: owner goroutines (closures of writeToShardWithContext) of the
+// labelled case that are not parked in a gate; "" = of any case.
+func inflightOf(label string) int {
+	profOnce.Do(func() { go profiler() })
+	q := profReq{label, make(chan int, 1)}
+	profReqs <- q
+	return <-q.resp
+}
+
+func dumpInflight() (map[string]int, int) {
 	atomic.AddInt64(&profileDumps, 1)
 	var buf bytes.Buffer
 	pprof.Lookup("goroutine").WriteTo(&buf, 1)
-	n := 0
-	needle := fmt.Sprintf("%q:%q", "c03", label)
+	m := map[string]int{}
+	total := 0
 	for _, blk := range strings.Split(buf.String(), "\n\n") {
 		if !strings.Contains(blk, "writeToShardWithContext.func") || strings.Contains(blk, "(*caseRun).gateWait") {
 			continue
 		}
-		if label != "" && !strings.Contains(blk, needle) {
-			continue
-		}
 		cnt := 1
 		fmt.Sscanf(strings.TrimSpace(blk), "%d @", &cnt)
-		n += cnt
+		total += cnt
+		if lm := reLabel.FindStringSubmatch(blk); lm != nil {
+			m[lm[1]] += cnt
+		}
 	}
-	return n
+	return m, total
 }
 
 // worker runs cases one at a time: the write itself on the worker's own
